@@ -13,6 +13,7 @@ mod roundtrip;
 mod codec;
 mod gen;
 mod relations;
+mod edits;
 
 use util::*;
 
@@ -39,6 +40,8 @@ fn main() {
         ("pathcodec", "replay") => codec::path_replay(&args, &mut s),
         ("encoder", "relations") => relations::encoder_relations(&args, &mut s),
         ("timingcodec", "replay") => codec::timing_replay(&args, &mut s),
+        ("edits", "replay") => edits::text_replay(&args, &mut s),
+        ("edits", "relations") => edits::relations(&args, &mut s),
         (m, o) => {
             eprintln!("unknown module/mode {m} {o}");
             std::process::exit(2);
